@@ -2,6 +2,9 @@ SPECIFICATION Spec
 CONSTANTS
   MaxMix = 3
   MixKeys = "all"
+  MaxSubs = 2
+  MaxSubMix = 2
+  SubErrLen = 2
   Export = TRUE
 INVARIANT OrderedBases
 INVARIANT FirstAppliedLast
@@ -10,6 +13,9 @@ INVARIANT KeysReachOwner
 INVARIANT InvalidCompositeIsError
 INVARIANT UnknownKeyIsErrorMix
 INVARIANT PlainBuilds
+INVARIANT SubsectionsReachComponent
+INVARIANT SubsFormIndependent
+INVARIANT UnknownInSubsectionIsError
 INVARIANT CoefFits
 CONSTRAINT Emit
 CHECK_DEADLOCK FALSE
